@@ -224,6 +224,20 @@ def judge_processor(paths: List[Path], site: Site, kind: str, j: Judged, loop_ok
         if old is None:
             j.u("cursor assignment without a recorded old value")
             continue
+        # cur = max(cur, target): the conditional forward jump in one expression
+        na = single_atom(new)
+        if na is not None and na[0] in ("max", "call") and (na[0] == "max" or na[1] == "max"):
+            margs = list(na[1]) if na[0] == "max" else list(na[2])
+            if len(margs) == 2 and any(x == old for x in margs):
+                tgt = margs[0] if margs[1] == old else margs[1]
+                p.regions[("max", tgt - old)] = {"gt", "eq"}
+                # the complementary case (target behind the cursor) leaves the cursor where it is
+                q = p.clone()
+                q.regions = dict(p.regions)
+                q.regions[("max", tgt - old)] = {"lt", "eq"}
+                q.effects = [e for e in p.effects if e is not se]
+                stay_paths.append(q)
+                new = tgt
         jump_paths.append((p, new, old))
     if (True, True) not in seen_cases or (True, False) not in seen_cases:
         if not j.bad:
@@ -449,7 +463,24 @@ def check_children(paths: List[Path], site: Site, kind: str, j: Judged) -> None:
                 ent = [i for i, e in enumerate(p.effects) if e.kind == "enter" and "index_stack_maintain" in e.name]
                 ext = [i for i, e in enumerate(p.effects) if e.kind == "exit" and "index_stack_maintain" in e.name]
                 li = p.effects.index(lp)
-                if not (ent and ext and ent[0] < li < ext[-1]):
+                cm_form = bool(ent and ext and ent[0] < li < ext[-1])
+                # explicit form: index_stack_up() ... loop ... index_stack_down() in a finally block
+                ups = [i for i, e in enumerate(p.effects) if e.kind == "call" and e.name == "index_stack_up"]
+                downs = [i for i, e in enumerate(p.effects) if e.kind == "call" and e.name == "index_stack_down"]
+
+                def in_finally(node: Any) -> bool:
+                    from .core import parent as _par
+
+                    q_ = node
+                    while q_ is not None:
+                        pp = _par(q_)
+                        if isinstance(pp, ast.Try) and any(q_ is x for x in pp.finalbody):
+                            return True
+                        q_ = pp
+                    return False
+
+                explicit_form = bool(ups and downs and ups[0] < li < downs[-1] and in_finally(p.effects[downs[-1]].node))
+                if not (cm_form or explicit_form):
                     j.v("index-stack", "the array index stack is not pushed/popped around the element loop", witness="nested arrays address the wrong element")
             elif lang == "go":
                 li = p.effects.index(lp)
